@@ -194,6 +194,13 @@ fn eval(v: &Value) -> Value {
                 _ => go!(MolecularShape2),
             }
         }
+        "LineShape::radial_area" => {
+            let radii: Vec<f64> = a[0].as_array().unwrap().iter().map(f).collect();
+            match LineShape::from_radial("P", radii) {
+                Ok(s) => json!({"area": fl(s.area()), "vertices": s.items.iter().map(|l| vec![fl(l.start.x), fl(l.start.y)]).collect::<Vec<_>>()}),
+                Err(_) => json!({"err": true}),
+            }
+        }
         "State::order" => {
             // [kind, state1, state2] -> scores and the orderings the real Ord/PartialOrd give
             let kind = a[0].as_str().unwrap();
